@@ -42,7 +42,7 @@ CHECKS = {
         note="Only streams the SVT encoder can produce (no independent encoder offline); libaom via hand-declared ABI.", design="4 (C08)"),
     "C09": dict(category="model_checking",
         technique="TLA+ specs DecMT.tla (stage/row protocol, start flags, motion-field and end-of-frame barriers; 2-3 threads x 2-3 rows x 2 frames incl. liveness) and DecRowDeps.tla (data dependencies of row jobs across tile columns) and DecWave.tla (superblock wavefront inside each stage: every stage's top-right wait expression implies the left / above-right data dependency on all grids and thread assignments, and cannot stall) checked exhaustively by TLC; real decoder bound (a) by trace validation of every superblock of every multi-threaded decode against DecWaveTrace.tla (hooks after each wait and before each progress-word store, emitting threads jittered so that rows really catch up with each other) and of the row jobs of every multi-threaded decode against DecRowsTrace.tla (guarded hooks: frame reset, recon row done, LF/CDEF/LR row begin and done-map updates; every dependency judged event by event) and (b) observationally via Observe.tla (threads 1..8 under yield perturbation must equal the single-thread pictures, incl. streams with tile columns of unequal cost; clean teardown)",
-        text="Each-row-once, stage ordering, no stale start flag, reset-behind-barrier and completion are invariants/liveness of DecMT.tla; the code is compared with it only through its outputs.",
+        text="Each-row-once, stage ordering, no stale start flag, reset-behind-barrier and completion are invariants/liveness of DecMT.tla (bound through outputs); row-job dependencies (DecRowDeps), the superblock wavefront inside every stage (DecWave) and the picture-buffer manager (DecDpb) are checked exhaustively AND enforced event by event on every recorded multi-threaded decode.",
         note="Start flags / barriers of DecMT.tla are bound only observationally; C11 data races not judged; oversubscribed regime is a recorded finding.", design="3.7, 4 (C09), 11"),
     "C11": dict(category="exploration",
         technique="trace validation against TLA+ spec Session.tla (a run is a complete session: init, sends, EOS, one packet per picture without error flags, drained, teardown) of encodes executed in the ASan+UBSan build under a wall-clock timeout, over configurations accepted per ParamDomain.tla x contents x sizes",
